@@ -276,7 +276,7 @@ CLAIMED["C19"] = dict(
         "knots in float32.",
    note="Trusted: Coq kernel (the dtype and index theorems are axiom-free; the margins use the Reals axioms); "
         "translator tables; harness. The agreement claim itself rests on testing.",
-   technique="Coq proof (promotion lattice, counting argument, real margins, table by computation) + float32/float64 differential search",
+   technique="Coq proof (promotion lattice, counting argument, real margins, table by computation; Flocq rounding-error bounds over a binary32 operation dictionary) + bit-for-bit exact-rational correspondence + float32/float64 differential search",
    design="DESIGN.md section 4, C19")
 
 CLAIMED["C12"] = dict(
@@ -336,7 +336,7 @@ CLAIMED["C03"] = dict(
         "compositions, four bases, context rows, MaskedAutoregressiveFlow, SimpleRealNVP).",
    note="Trusted: Coq kernel; Reals/Coquelicot axioms; translator; harness quadrature (unresolved cases are counted and "
         "decide nothing). The theorem part alone does not establish the property for a given flow; the label is partial.",
-   technique="Coq proof (Coquelicot substitution rule, bin surjectivity) over regenerated formulas + quadrature search",
+   technique="Coq proof (Coquelicot substitution rule bin by bin with Chasles, bin surjectivity, iterated integrals for factorised flows) over regenerated formulas + quadrature search",
    design="DESIGN.md section 4, C03")
 
 # additions made after the seeded-change rounds (DESIGN.md section 13)
